@@ -14,8 +14,11 @@ import (
 
 var lookupContents = []string{"a,b\n1,2\n", "", "k,v\nü,名\n", "x\n" + strings.Repeat("row,1\n", 500), "\"q,1\",\"line\nbreak\"\n", "a,b\r\n1,2\r\n"}
 
-func genLookupOp(t *rapid.T, names []string) storeOp {
-	k := rapid.IntRange(0, 99).Draw(t, "lookupOp")
+func genLookupOp(t *rapid.T, names []string, early bool) storeOp {
+	k := pct(t, "lookupOp")
+	if early {
+		k = 0
+	}
 	name := pick(t, names, "name")
 	if rapid.IntRange(0, 2).Draw(t, "ext") == 0 {
 		name += rapid.SampledFrom([]string{".csv", ".CSV", ".csv.gz", ".Csv.Gz", ".txt"}).Draw(t, "extv")
